@@ -103,8 +103,10 @@ SIG = {
 }
 
 
-def corpus_program():
-    # shallow parent, a default argument is not possible with Program: two levels + a duplicate call (CSE) + a sibling
+def corpus_program(small=False):
+    # shallow parent, a sibling whose argument comes out of another task's result (upstream), a duplicate call (CSE)
+    if small:
+        return ctl_db.Program(2, [[(1, 0), (1, 1, 1)], []], [True, False], [(0, 1)], ns="gc22")
     return ctl_db.Program(3, [[(1, 0), (2, 1, 1)], [(2, 0)], []], [True, False, True], [(0, 1)], ns="gc22")
 
 
@@ -271,10 +273,10 @@ def run(ctx):
         cases = []
         thorough = ctx.tier == "thorough"
         workloads = []
-        w0 = ctl_db.guarded(ctx, "corpus", lambda: Workload(ctx, env, flags, corpus_program(), "corpus"))
+        w0 = ctl_db.guarded(ctx, "corpus", lambda: Workload(ctx, env, flags, corpus_program(small=not thorough), "corpus"))
         if w0 is not None:
             workloads.append(w0)
-        for i in range(ctx.n(2, 12)):
+        for i in range(ctx.n(2, 6)):
             w = ctl_db.guarded(ctx, f"gen{i}", lambda i=i: Workload(ctx, env, flags, ctl_db.gen_program(rng, ns="gc22g"), f"gen{i}"))
             if w is not None:
                 workloads.append(w)
@@ -290,7 +292,7 @@ def run(ctx):
                 ctl_db.guarded(ctx, f"{w.label}:fault@{k}", lambda k=k: fault_case(ctx, w, k, "commit", cases))
             # statement-level faults: every statement in the thorough tier, a sample otherwise
             nst = 0
-            stmt_ks = list(range(1, 400)) if (thorough and wi < 3) else sorted(rng.sample(range(1, 160), 6 if wi == 0 else 2))
+            stmt_ks = list(range(1, 400)) if (thorough and wi == 0) else sorted(rng.sample(range(1, 160), (30 if thorough else 6) if wi == 0 else (10 if thorough else 2)))
             for k in stmt_ks:
                 if not ctl_db.guarded(ctx, f"{w.label}:fault-stmt@{k}", lambda k=k: fault_case(ctx, w, k, "stmt", cases), True):
                     break
